@@ -85,14 +85,21 @@ type World struct {
 	Crashed    chan struct{}
 	connGen    map[string]int
 
-	// Delay, when set, is called at every decorated call (S2 schedule perturbation)
-	Delay func(kind string)
-	// StoreFault, when set, is asked before every store call of a controller task; a non-nil error is returned
-	// to the caller instead of performing the call (transient store unavailability)
-	StoreFault func(kind string) error
-	// HandlerWatch, when set, interposes on the Watch call of northbound handlers (C08)
-	HandlerWatch WatchHook
+	// hooks set by the check while the controllers are already running (hence atomic)
+	delay        atomic.Pointer[func(kind string)]
+	storeFault   atomic.Pointer[func(kind string) error]
+	handlerWatch atomic.Pointer[WatchHook]
 }
+
+// SetDelay installs a function called at every decorated call (S2 schedule perturbation)
+func (w *World) SetDelay(f func(kind string)) { w.delay.Store(&f) }
+
+// SetStoreFault installs a function asked before every store call of a controller task; a non-nil error is
+// returned to the caller instead of performing the call (transient store unavailability)
+func (w *World) SetStoreFault(f func(kind string) error) { w.storeFault.Store(&f) }
+
+// SetHandlerWatch interposes on the Watch call of northbound handlers (C08)
+func (w *World) SetHandlerWatch(h WatchHook) { w.handlerWatch.Store(&h) }
 
 // Incarnation is one run of the onos-config process: store objects, controllers, servers, connection manager
 type Incarnation struct {
@@ -251,17 +258,18 @@ func (inc *Incarnation) gate(kind string, effect bool) {
 			select {}
 		}
 	}
-	if d := w.Delay; d != nil {
-		d(kind)
+	if d := w.delay.Load(); d != nil {
+		(*d)(kind)
 	}
 }
 
 // fault returns an injected transient store error for calls made by controller tasks
 func (inc *Incarnation) fault(kind string) error {
-	f := inc.w.StoreFault
-	if f == nil {
+	fp := inc.w.storeFault.Load()
+	if fp == nil {
 		return nil
 	}
+	f := *fp
 	t := currentTaskObj()
 	if t == nil || t.Ctl == "handler" {
 		return nil
